@@ -42,6 +42,7 @@ type supSim struct {
 	loopObs   []string
 	bits      []bool // spawn decisions of the current callback
 	sentCount int
+	smallGaps bool  // K4: everything happens within a few milliseconds, as on the real node
 	fixedGap  int64 // >= 0: use this clock advance for the next delivery
 	awaited   map[uint64]bool // targets of the most recent stop request of the restart strategy
 	dying     uint64
@@ -372,6 +373,9 @@ func (s *supSim) die(pid uint64, reason string) {
 func (s *supSim) gap() int64 {
 	pm := int64(s.cfg.Period) * 1000
 	g := s.g
+	if s.smallGaps {
+		return 1
+	}
 	if len(s.fails) > 0 && g.Chance(1, 3) {
 		tgt := s.fails[g.Intn(len(s.fails))] + pm + int64(g.Intn(3)) - 1
 		if tgt >= s.run.vt {
@@ -544,8 +548,10 @@ func (s *supSim) settle() {
 	for it := 0; it < 200 && s.status == 0; it++ {
 		progressed := false
 		for _, p := range s.sortedAlive() {
-			if r, ok := s.exitSent[p]; ok {
-				s.die(p, r)
+			if _, ok := s.exitSent[p]; ok {
+				// an actor that obeys an exit signal terminates with the WRAPPED reason ("<pid>: reason", act/actor.go),
+				// which is never identical to Normal/Shutdown: `Reason.other (100 + code)` in the model
+				s.die(p, supWrap(s.exitSent[p]))
 				progressed = true
 			}
 		}
@@ -861,7 +867,7 @@ func (s *supSim) episodeChaos() {
 			}
 			r := supReasons[g.Intn(len(supReasons))]
 			if sent, ok := s.exitSent[p]; ok && g.Chance(2, 3) {
-				r = sent
+				r = supWrap(sent)
 			}
 			if _, induced := s.exitSent[p]; !induced && len(s.pendingStops()) > 0 && (s.cfg.Kind == "afo" || s.cfg.Kind == "rfo") && !g.Chance(1, 12) {
 				// another child dying while one is being stopped: listed regions D18 (KeepOrder) and D25 (rest-for-one);
@@ -1125,6 +1131,9 @@ func (s *supSim) episodeSingleOn(name int, reason string, gap int64) {
 	s.deliver(len(s.inflight) - 1)
 	now := s.run.vt
 	s.settle()
+	if !(s.cfg.Strategy == 2 || (s.cfg.Strategy == 0 && !quiet(reason))) {
+		return // no restart needed: the window rule does not apply
+	}
 	cnt := s.windowCount(now)
 	s.fails = append(s.fails, now)
 	if cnt > s.cfg.K {
